@@ -27,6 +27,28 @@ func guard(e *vsched.Exec) *vx.Verdict {
 	return &vx.Verdict{Class: "limiter-" + e.Outcome, Msg: fmt.Sprintf("execution ended with %s: blocked %v panics %v", e.Outcome, e.Blocked(), e.Panics()), Sig: e.Outcome}
 }
 
+// skipResent: an execution in which the redis client re-sent a command (fence.go) is not a valid
+// observation — unless it happens execution after execution; then it is the implementation's
+// behaviour and is judged as it is.
+var resentStreak int
+
+func skipResent(e *vsched.Exec) bool {
+	for _, l := range e.Log() {
+		if l == "!resent" {
+			resentStreak++
+			return resentStreak <= 3
+		}
+	}
+	resentStreak = 0
+	return false
+}
+
+func openFence(e *env) {
+	e.wide = true // one fence window per execution: the threads' calls may overlap
+	e.open()
+	e.resent.Store(false)
+}
+
 // ---- PeriodLimit ----
 
 type pRec struct {
@@ -44,6 +66,7 @@ func periodScenario(period, quota int, calls []int, withFault bool) vx.Scenario 
 	body := func() {
 		e := getEnv()
 		e.reset()
+		openFence(e)
 		lim := limit.NewPeriodLimit(period, quota, e.cli, periodPrefix)
 		vsched.QuietBegin()
 		for ti, n := range calls {
@@ -83,13 +106,16 @@ func periodScenario(period, quota int, calls []int, withFault bool) vx.Scenario 
 		if v := guard(e); v != nil {
 			return *v
 		}
+		if skipResent(e) {
+			return vx.Verdict{Sig: "skipped: client re-sent a command"}
+		}
 		r := &pRef{period: period, quota: quota, win: map[string]*pWin{}}
 		faulty := false
 		var sig, order []string
 		granted := 0
 		for i, l := range e.Log() {
-			if l == "!resent" { // the redis client re-sent a command: not a valid observation
-				return vx.Verdict{Sig: "skipped: client re-sent a command"}
+			if l == "!resent" {
+				continue
 			}
 			var rc pRec
 			if err := json.Unmarshal([]byte(l), &rc); err != nil {
@@ -178,6 +204,7 @@ func tokenScenario(rate, burst int, threads [][]tCall, withOutage bool) vx.Scena
 	body := func() {
 		e := getEnv()
 		e.reset()
+		openFence(e)
 		lims := map[int]*limit.TokenLimiter{
 			1: limit.NewTokenLimiter(rate, burst, e.cli, "tk"),
 			2: limit.NewTokenLimiter(rate, burst, e.cli, "tk"),
@@ -226,13 +253,16 @@ func tokenScenario(rate, burst int, threads [][]tCall, withOutage bool) vx.Scena
 		if v := guard(e); v != nil {
 			return *v
 		}
+		if skipResent(e) {
+			return vx.Verdict{Sig: "skipped: client re-sent a command"}
+		}
 		w := newTokenWorld(rate, burst)
 		var sig, order []string
 		granted, lastMs := 0, int64(0)
 		perInst := map[int]int{}
 		for _, l := range e.Log() {
 			if l == "!resent" {
-				return vx.Verdict{Sig: "skipped: client re-sent a command"}
+				continue
 			}
 			var rc tRec
 			if err := json.Unmarshal([]byte(l), &rc); err != nil {
